@@ -44,6 +44,11 @@ func (cl *Client) TGSExchange(tgsReq messages.TGSReq, kdcRealm string, tgt messa
 	if ok, err := tgsRep.Verify(cl.Config, tgsReq); !ok {
 		return tgsReq, tgsRep, krberror.Errorf(err, krberror.EncodingError, "TGS Exchange Error: TGS_REP is not valid")
 	}
+	// RFC 4120 section 3.3.5 (by reference to 3.1.5): the crealm of the reply must be that of the client.
+	// The TGS_REQ does not carry the client's realm so this cannot be part of TGSRep.Verify.
+	if tgsRep.CRealm != cl.Credentials.Domain() {
+		return tgsReq, tgsRep, krberror.NewErrorf(krberror.KRBMsgError, "TGS Exchange Error: CRealm in response does not match the client's realm. Expected: %s; Reply: %s", cl.Credentials.Domain(), tgsRep.CRealm)
+	}
 
 	if tgsRep.Ticket.SName.NameString[0] == "krbtgt" && !tgsRep.Ticket.SName.Equal(tgsReq.ReqBody.SName) {
 		if referral > 5 {
